@@ -38,6 +38,7 @@ class FnContract:
   proofs: List[Tuple[str, str]] = field(default_factory=list)   # (anchor, text)
   attrs: List[str] = field(default_factory=list)
   sig_subst: List[Tuple[str, str]] = field(default_factory=list)
+  effect: Optional[str] = None
   line: int = 0
 
 
@@ -77,6 +78,7 @@ def parse_contracts(path: str) -> Dict[str, FnContract]:
       elif d == 'tags': cur.tags = arg.split()
       elif d == 'ret': cur.ret = arg
       elif d == 'attr': cur.attrs.append(arg)
+      elif d == 'effect': cur.effect = arg
       elif d == 'spec': sect = ('spec', None)
       elif d == 'loop': sect = ('loop', arg)
       elif d == 'proof': sect = ('proof', arg)
@@ -579,6 +581,15 @@ def build_unit(name: str, variant: Optional[str] = None, canary: bool = False) -
     over = parse_contracts(os.path.join(d, cfile))
     if not over: raise Undecided('unit %s: variant %s has no contracts' % (name, variant))
     contracts.update(over)
+  for c in contracts.values():
+    if c.effect:
+      # O-06.7: on the completing path the handler's net effect on the operand stack is the ISA table's entry for its opcode
+      clause = '    (r == ExecutionSignal::Ok) ==> final(self).fiber.stack@.len() == old(self).fiber.stack@.len() + eff(%s),' % c.effect
+      sp = c.spec.rstrip()
+      if re.search(r'\bensures\b', sp):
+        c.spec = sp.rstrip(',') + ',\n' + clause
+      else:
+        c.spec = sp + '\n  ensures\n' + clause
   if canary:
     for c in contracts.values():
       if c.spec.strip() and not any('external_body' in at for at in c.attrs):
